@@ -512,9 +512,24 @@ TARGETED = ['ERROR :Closing link: (flood)', 'ERROR :Trying to reconnect too fast
             ':srv 433 * test :Nickname in use', ':srv 437 * test :unavailable', ':test!u@h NICK', ':test!u@h NICK :other', ':srv 001', ':srv 005 test', ':srv 353 test', ':srv 352',
             ':n!u@h JOIN', ':n!u@h PART', ':n!u@h KICK #c', ':n!u@h MODE #c +o', ':n!u@h MODE', 'BATCH', 'BATCH +', 'BATCH -nope', '@batch=nope :n!u@h PRIVMSG #c :x',
             ':n!u@h PRIVMSG', ':n!u@h PRIVMSG test', ':n!u@h PRIVMSG test :\x01', ':n!u@h PRIVMSG test :\x01PING', ':n!u@h PRIVMSG test :\x01VERSION\x01', ':n!u@h TOPIC #c', 'PONG']
+ODD_PREFIXES = [':nick!@host', ':!@', ':user@host!nick', ':!', ':@', ':n!u@', ':!u@h', ':n!@', ':@h!n', ':a!b!c@d', ':a@b@c!d', ':n!u@h@i', ':!!@@', ':n!u', ':n@h',
+                ':@!', ':n!@h!', ':é!ü@ö', ':n !u@h', ':*!*@*']
+def nick_run(r):
+    """a long run of nick-collision numerics (the bot must find a new nick each time), before and/or after 001"""
+    n = r.choice([15, 16, 20, 30, 45])
+    out = []
+    if r.random() < 0.4: out.append(b':srv 001 test :Welcome')
+    for _ in range(n):
+        num = r.choice(['433', '433', '433', '432', '437'])
+        out.append((':srv %s %s %s :Nickname is already in use.' % (num, r.choice(['*', 'test']), r.choice(['test', 'test_', 'x']))).encode())
+    if r.random() < 0.4: out.append(b':srv 001 test :Welcome')
+    return out
+
 def gen_hostile_line(r):
     if r.random() < 0.25:
         return arity_line(r)
+    if r.random() < 0.06:
+        return (r.choice(ODD_PREFIXES) + ' ' + r.choice(['PRIVMSG test :hi', 'PING :p', 'JOIN #c', 'NICK x', 'QUIT', 'MODE #c +o test', '001 test :hi', 'PRIVMSG #c :@echo x'])).encode()
     k = r.randint(0, 14)
     pfx = r.choice(['', ':srv ', ':n!u@h ', ':test!u@h ', ':test ', ': ', ':\x00 ', ':n!u@h!x '])
     words = WORDS + FMT + FMT
@@ -578,7 +593,7 @@ def few_chunks(r, data):
 class Alarm(BaseException): pass
 def _alarm(sig, frm): raise Alarm()
 
-def guarded_run(rig, st, seconds=10):
+def guarded_run(rig, st, seconds=5):
     """one pass of the real drivers.run() under a watchdog: a loop that does not return is a failure, not a wait"""
     import signal
     signal.signal(signal.SIGALRM, _alarm)
@@ -642,6 +657,9 @@ def l3_cases(rig, r, n):
     cases = []; mlines = []; spans = []
     for i in range(n):
         lines = [gen_hostile_line(r) for _ in range(r.randint(1, 12))]
+        if r.random() < 0.05:
+            k_ = r.randrange(len(lines) + 1)
+            lines[k_:k_] = nick_run(r)
         lines = [l for l in lines if b'\n' not in l]
         fault = r.choice(FAULT_MODES)
         key = ('k%d' % r.randrange(10 ** 6)).encode()
@@ -649,7 +667,7 @@ def l3_cases(rig, r, n):
         obs, ops = run_l3(rig, r, lines, fault, key, eof)
         ok = True; msg = ''
         if obs['crash'] in ('Hang', 'Alarm'):
-            ok = False; msg = 'the driver loop does not return (%s) after %r' % ('recv() on a blocking socket with nothing to read' if obs['crash'] == 'Hang' else 'no return within 10 s', lines)
+            ok = False; msg = 'the driver loop does not return (%s) after %r' % ('recv() on a blocking socket with nothing to read' if obs['crash'] == 'Hang' else 'drivers.run() — feedMsg of the last line fed — did not return within 5 s', lines)
         elif obs['crash'] or not obs['registered']:
             ok = False; msg = 'driver removed from drivers._drivers (exception %s escaped run()) after %r' % (obs['crash'], lines)
         elif obs['answered'] is False:
